@@ -9,7 +9,7 @@ import (
 
 func init() {
 	register(&propDef{ID: "C11", Run: runC11,
-		Explain: "Structural necessary conditions of 'TCP framing depends on the bytes, not on their segmentation', decided on SSA/CFG of /repo: (1) borrow-lifetime: a slice borrowed from bufio.Reader.ReadLine/ReadSlice/Peek (or returned un-copied by a package function) is never used - read, appended to, or copied - after another read on the same reader unless the borrowing call was re-executed, and is never stored in a field, global, map or channel; (2) full-read-only: the framing path (ParseMessage, readLine, skipWhiteSpace) consumes the stream only through ReadLine, ReadByte/UnreadByte and full-read helpers (io.ReadFull, or io.ReadAll over an io.LimitReader with a length test); no partial Read; (3) reader-hoisted: the per-connection loop passes to every ParseMessage one bufio.Reader created before the loop from the connection; (4) body-length: the body is read from the same reader, after the blank line, with exactly the Content-Length value found through the comparator-based lookup, negative values rejected, a short body is an error; (5) keep-alive: skipWhiteSpace runs before the first line is read, consumes CR/LF/blank bytes and un-reads the first other byte exactly once; (6) line-assembly: readLine continues exactly while isPrefix is set and appends every chunk in order.",
+		Explain:    "Structural necessary conditions of 'TCP framing depends on the bytes, not on their segmentation', decided on SSA/CFG of /repo: (1) borrow-lifetime: a slice borrowed from bufio.Reader.ReadLine/ReadSlice/Peek (or returned un-copied by a package function) is never used - read, appended to, or copied - after another read on the same reader unless the borrowing call was re-executed, and is never stored in a field, global, map or channel; (2) full-read-only: the framing path (ParseMessage, readLine, skipWhiteSpace) consumes the stream only through ReadLine, ReadByte/UnreadByte and full-read helpers (io.ReadFull, or io.ReadAll over an io.LimitReader with a length test); no partial Read; (3) reader-hoisted: the per-connection loop passes to every ParseMessage one bufio.Reader created before the loop from the connection; (4) body-length: the body is read from the same reader, after the blank line, with exactly the Content-Length value found through the comparator-based lookup, negative values rejected, a short body is an error; (5) keep-alive: skipWhiteSpace runs before the first line is read, consumes CR/LF/blank bytes and un-reads the first other byte exactly once; (6) line-assembly: readLine continues exactly while isPrefix is set and appends every chunk in order.",
 		NotDecided: "'exactly those messages with exact headers' at value level (C01/C14)."})
 }
 
